@@ -264,6 +264,29 @@ def check(case, stats):
                 out.append(V(ID, 'from_game_variants_differ', cname,
                              f'{desc}: from_game {got!r} != from_game_or_none'
                              f' {got_none!r}'))
+    # the street-by-street loop of a caller: one board list, grown in place
+    # between two evaluations - the second answer is the answer for the
+    # cards the list holds then
+    if len(board) >= 2 and not any('?' in c for c in hole + board):
+        from pokerkit import Card
+        cut = 1 + (len(hole) + len(board)) % (len(board) - 1)
+        objs = list(Card.parse(bs))
+        buf = objs[:cut]
+        try:
+            cls.from_game_or_none(hs, buf)
+            buf.extend(objs[cut:])
+            grown = cls.from_game_or_none(hs, buf)
+        except Exception as e:  # noqa: BLE001
+            if not _is_engine_exception(e):
+                raise     # harness fault: exit 2
+            grown = e
+        stats.count('class:board_list_grown_in_place')
+        if isinstance(grown, Exception) or grown != got_none:
+            out.append(V(ID, 'answer_depends_on_earlier_call', cname,
+                         f'{cname}.from_game_or_none({hs!r}, board list) with'
+                         f' the list grown from {cut} to {len(objs)} cards'
+                         f' in place gives {grown!r}, a fresh call'
+                         f' {got_none!r}'))
     # non-triviality: >= 2 legal combos with different keys, or none
     nontrivial = want is None
     if want is not None:
